@@ -286,7 +286,7 @@ pub fn run(prop: &'static str, args: &Args) -> i32 {
         let v = recheck(prop, &case);
         return finish(args, ev, v, &|c| recheck(prop, c));
     }
-    let ms = crate::props::families::members(&["reach", "struct", "fixtures", "funcs", "minimal"], args, &mut ev);
+    let ms = crate::props::families::members(&["reach", "struct", "fixtures", "funcs", "minimal", "reach+customs"], args, &mut ev);
     let mut cases: Vec<Case> = ms.iter().map(Case::of).collect();
     cases.extend(crate::props::bisim::stateful_cases());
     let mut viol;
